@@ -64,3 +64,11 @@ def _(self, data: Tup(Bytes, Nat), encoded: ByteArray, values: Opt(Val)):
     ensures(list(encoded[:len(old(encoded))]) == list(old(encoded))
             and list(encoded[len(old(encoded)):len(old(encoded)) + len(self.tag)]) == list(self.tag))
     ensures(len(encoded) >= len(old(encoded)) + len(self.tag) + 2 + (g_n + 7) // 8)
+
+
+@contract("ArrayType.set_tag", props=["C03", "C01", "C04"], for_class="*")
+def _(self, number: Nat, flags: Union(Lit(0), Lit(32), Lit(64), Lit(96), Lit(128), Lit(160), Lit(192), Lit(224))):
+    # SEQUENCE OF / SET OF are always constructed; the class that was asked for is kept (F19)
+    no_invariant()
+    assigns(self)
+    ensures(list(self.tag) == tag_octets(number, flags + (0 if (flags // 32) % 2 == 1 else 32)) and self.tag_len == len(self.tag))
